@@ -11,6 +11,8 @@ from typing import Dict, List, Optional, Tuple
 
 from ..core import AnalysisError, Loc, Report, Source, norm
 from ..ivcong import (AVal, EntryInterpreter, Undecided, congruent_to_x, within)
+from ..guards import atoms, path_conditions
+from ..normalize import flat
 from ..selftest import Edit
 
 ID = "C15"
@@ -76,35 +78,51 @@ def _stores_in_function(func: ast.FunctionDef):
 
 def _positivity_guard(func: ast.FunctionDef, before: ast.stmt, elt_source: ast.AST, iter_src: Optional[ast.AST]) -> bool:
     """
-    Is there, on the straight line before `before` in func.body, an `if <w> <= 0: raise` where w is the scalar source
-    (a Name) or the loop variable of a `for w in <iter_src>` loop?
+    Is the assignment `before` only reached with a positive length?  Scalar source w: the path conditions of the assignment
+    contain `0 < w` (however the guard is written: `if w <= 0: raise`, `if not w > 0: raise`, nested in an else, ...).  Sequence
+    source: an earlier loop `for w in <iter_src>` raises under exactly `w <= 0`, or an earlier `if any(w <= 0 for w in <iter_src>): raise`.
     """
-    def is_nonpositive_test(test: ast.AST, name: str) -> bool:
-        if isinstance(test, ast.Compare) and len(test.ops) == 1 and isinstance(test.left, ast.Name) \
-                and test.left.id == name and isinstance(test.comparators[0], ast.Constant) \
-                and test.comparators[0].value == 0:
-            return isinstance(test.ops[0], ast.LtE)
-        if isinstance(test, ast.UnaryOp) and isinstance(test.op, ast.Not):
-            t = test.operand
-            return isinstance(t, ast.Compare) and len(t.ops) == 1 and isinstance(t.left, ast.Name) \
-                and t.left.id == name and isinstance(t.comparators[0], ast.Constant) \
-                and t.comparators[0].value == 0 and isinstance(t.ops[0], ast.Gt)
-        return False
+    def zero(e: ast.AST) -> bool:
+        return isinstance(e, ast.Constant) and not isinstance(e.value, bool) and e.value == 0
 
-    def raises(body: List[ast.stmt]) -> bool:
-        return bool(body) and isinstance(body[-1], ast.Raise)
+    def positive_atom(atom: str, name: str) -> bool:
+        parts = atom.split()
+        if len(parts) != 3:
+            return False
+        try:
+            return parts[1] == "<" and float(parts[0]) == 0 and parts[2] == name
+        except ValueError:
+            return False
 
-    for s in func.body:
-        if s is before:
-            break
-        if isinstance(s, ast.If) and isinstance(elt_source, ast.Name) and iter_src is None \
-                and is_nonpositive_test(s.test, elt_source.id) and raises(s.body):
-            return True
-        if isinstance(s, ast.For) and iter_src is not None and isinstance(s.target, ast.Name) \
-                and norm(s.iter) == norm(iter_src):
-            for inner in s.body:
-                if isinstance(inner, ast.If) and is_nonpositive_test(inner.test, s.target.id) and raises(inner.body):
-                    return True
+    def nonpositive_atom(atom: str, name: str) -> bool:
+        parts = atom.split()
+        if len(parts) != 3:
+            return False
+        try:
+            return parts[1] == "<=" and parts[0] == name and float(parts[2]) == 0
+        except ValueError:
+            return False
+    body = flat(func.body)
+    if isinstance(elt_source, ast.Name) and iter_src is None:
+        conds = path_conditions(body, before) or []
+        return any(positive_atom(c, elt_source.id) for c in conds)
+    if iter_src is not None:
+        for n in ast.walk(func):
+            if getattr(n, "lineno", 0) >= before.lineno:
+                continue
+            if isinstance(n, ast.For) and isinstance(n.target, ast.Name) and norm(n.iter) == norm(iter_src):
+                for r in [x for x in ast.walk(n) if isinstance(x, ast.Raise)]:
+                    conds = path_conditions(n.body, r) or []
+                    if len(conds) == 1 and nonpositive_atom(conds[0], n.target.id):
+                        return True
+            if isinstance(n, ast.If) and isinstance(n.test, ast.Call) and norm(n.test.func) == "any" and len(n.test.args) == 1 \
+                    and isinstance(n.test.args[0], ast.GeneratorExp) and n.body and isinstance(n.body[-1], ast.Raise):
+                g = n.test.args[0]
+                if len(g.generators) == 1 and not g.generators[0].ifs and isinstance(g.generators[0].target, ast.Name) \
+                        and norm(g.generators[0].iter) == norm(iter_src):
+                    at = atoms(g.elt)
+                    if len(at) == 1 and nonpositive_atom(at[0], g.generators[0].target.id):
+                        return True
     return False
 
 
